@@ -82,7 +82,7 @@ def _filename_arg(call: ast.Call) -> Optional[ast.AST]:
     return kwarg(call, 'filename', 1)
 
 
-@rule('C06.FILENAMES', ['C06'], min_instances=2)
+@rule('C06.FILENAMES', ['C06', 'C01', 'C08'], min_instances=2)
 def filenames(ctx: Ctx):
     """Writers and readers of one file use the same class constant; the two files have different names."""
     bc = base_cache(ctx)
@@ -104,6 +104,37 @@ def filenames(ctx: Ctx):
                              f'{c.name}.{wname} or .{rname} opens no file through the storage', construct=f'{c.name}:{wname}')
                 continue
             ok = all(same_expr(a, wf[0]) for a in wf + rf) and isinstance(wf[0], ast.Attribute)
+            # every file the reader may open is (re)written by every save: otherwise a file left by an earlier save in another
+            # format / under another name is read back as the current result
+            gw, rdw = ctx.cfg(wm), ctx.rd(wm)
+
+            def names_of(e, fnx, at):
+                g2, rd2 = ctx.cfg(fnx), ctx.rd(fnx)
+                if isinstance(e, ast.Name):
+                    out = set()
+                    for d in rd2.reaching(at, e.id):
+                        dv = rd2.def_value(d, e.id)
+                        if dv and dv[0] == 'value':
+                            out |= names_of(dv[1], fnx, d)
+                        else:
+                            out.add('?')
+                    return out
+                if isinstance(e, ast.IfExp):
+                    return names_of(e.body, fnx, at) | names_of(e.orelse, fnx, at)
+                return {src(e)} if e is not None else {'?'}
+            read_names = set()
+            for x in storage_calls(ctx, rm, ('file_handle',)):
+                read_names |= names_of(_filename_arg(x), rm, ctx.cfg(rm).primary(x))
+            written_always = set()
+            for x in storage_calls(ctx, wm, ('file_handle',)):
+                ns = names_of(_filename_arg(x), wm, gw.primary(x))
+                if len(ns) == 1 and gw.must_pass(gw.entry, [gw.primary(x)], [gw.exit], exc=False):
+                    written_always |= ns
+            stale = sorted(read_names - written_always)
+            ok2 = not stale
+            yield ctx.ob('C06.FILENAMES', ok2, rm, rm.node, f'every file {c.name}.{rname} may read is rewritten by every {wname}',
+                         '' if ok2 else f'{c.name}.{rname} may read {stale}, which {c.name}.{wname} does not write on every path: a file left by an '
+                         'earlier save (another format, another size class) is read back as the current result', construct=f'{c.name}:{wname}/{rname}:stale')
             yield ctx.ob('C06.FILENAMES', ok, rm, rm.node, f'{c.name}.{wname} and .{rname} use the same file name constant',
                          '' if ok else f'{c.name}.{wname} writes `{src(wf[0])}` but .{rname} reads `{src(rf[0])}`',
                          construct=f'{c.name}:{wname}/{rname}')
@@ -616,7 +647,7 @@ def commit_point(ctx: Ctx):
 # C08
 
 
-@rule('C08.WHO-WRITES-STORAGE', ['C08'], min_instances=4)
+@rule('C08.WHO-WRITES-STORAGE', ['C08', 'C12', 'C13', 'C06'], min_instances=4)
 def who_writes_storage(ctx: Ctx):
     """Only Cache.save closures open storage files for writing, only Cache.delete (and the save rollback)
     delete, only run_or_load_task's execute branch saves, only Lab.uncache_tasks deletes cache entries."""
